@@ -90,7 +90,8 @@ def input_val(inp) -> Val:
     v = input_value(inp)
     k = inp["kind"]
     # linspace: cubed computes start + i*step per block, NumPy uses its own formula: equal only up to rounding
-    return Val(v, exact=k not in ("random", "linspace"), comparable=k != "random", scale=max(1.0, _finite_max(v)))
+    # arange with a fractional step: likewise (and NumPy's float32 arange accumulates its step in float32)
+    return Val(v, exact=k not in ("random", "linspace") and not inp.get("frac_step"), comparable=k != "random", scale=max(1.0, _finite_max(v)))
 
 
 class BuildCtx:
@@ -498,6 +499,20 @@ def draw_input(draw, st, k, prev_inputs, opts):
     kinds = opts.get("input_kinds") or ["asarray"] * 6 + ["from_array", "from_zarr", "full", "ones", "zeros", "arange", "linspace", "eye"]
     kd = draw(st.sampled_from(kinds))
     inp = {"kind": kd, "shape": shape, "dtype": dtype, "chunks": draw_chunks(draw, st, shape, opts.get("many_chunks", False)), "k": k}
+    same = [q for q in prev_inputs if list(q["shape"]) == list(shape) and q["kind"] != "eye"]
+    if same and len(shape) >= 1 and draw(st.integers(0, 3)) == 0:
+        # same shape as an earlier input, chunked differently but with the SAME number of blocks along every axis where that is
+        # possible (10 elements in chunks of 5 and of 6): block grids that coincide in count but not in extent
+        q = draw(st.sampled_from(same))
+        qc = normalize_chunksize(q["shape"], q["chunks"])
+        new = []
+        for n_, c_ in zip(shape, qc):
+            n1 = max(int(n_), 1)
+            nb = -(-n1 // max(int(c_), 1))
+            alt = [c2 for c2 in range(1, n1 + 1) if -(-n1 // c2) == nb and c2 != c_]
+            new.append(draw(st.sampled_from(alt)) if alt else int(c_))
+        inp["chunks"] = new
+        inp["equal_numblocks"] = True
     if kd in ("asarray", "from_array", "from_zarr"):
         if kind(dtype) in "fc":
             c = draw(st.integers(0, 9))
@@ -514,6 +529,10 @@ def draw_input(draw, st, k, prev_inputs, opts):
             inp["dtype"] = dtype = "int64"
         start = draw(st.integers(-5, 5))
         step = draw(st.sampled_from([1, 2, 3, -1, -2])) if kind(dtype) != "u" else draw(st.sampled_from([1, 2, 3]))
+        if kind(dtype) == "f" and draw(st.integers(0, 2)) == 0:
+            # fractional steps: the number of elements of a block must not be derived from a floating-point block stop
+            step = draw(st.sampled_from([0.1, 0.25, 0.5, 0.3, -0.1, -0.25, 1.5]))
+            inp["frac_step"] = True
         n = draw(st.integers(0 if opts.get("allow_zero", True) else 1, 12))
         if kind(dtype) == "u":
             start = abs(start)
